@@ -246,3 +246,26 @@ pub proof fn lemma_trunc_day(v: int)
         lemma_fundamental_div_mod_converse(v, US_DAY(), q, r);
     }
 }
+
+// the (unspecified here) result of Timestamp::add_days; Kani proves its range and classification
+pub uninterp spec fn spec_ts_add_days(v: int, days: f64) -> Option<int>;
+
+// nearest whole second, ties away from zero
+pub open spec fn round_sec(u: int) -> int {
+    let f = u % 1_000_000;
+    let s = u - f;
+    if f > 500_000 || (f == 500_000 && u >= 0) { s + 1_000_000 } else { s }
+}
+
+pub proof fn lemma_round_sec(u: int)
+    ensures
+        round_sec(u) % 1_000_000 == 0,
+        -500_000 <= round_sec(u) - u <= 500_000,
+{
+    let f = u % 1_000_000;
+    let q = u / 1_000_000;
+    assert(u == 1_000_000 * q + f);
+    lemma_multiple(q, 1_000_000, 1_000_000, 1);
+    lemma_multiple(q + 1, 1_000_000, 1_000_000, 1);
+    assert((q + 1) * 1_000_000 == q * 1_000_000 + 1_000_000) by (nonlinear_arith);
+}
